@@ -25,6 +25,7 @@ def configs(tier):
     for nets, data in ((["rbm_am"], "tensor"), (["rbm_am"], "array"), (["rbm_am", "rbm_ph"], "tensor"), (["rbm_am", "rbm_ph"], "array")):
         out.append({"part": "fit", "nets": nets, "bases": len(nets) == 2, "scheduler": False, "data": data})
     out.append({"part": "index-lemmas"})
+    out.append({"part": "second-fit", "nets": ["rbm_am", "rbm_ph"], "bases": True, "scheduler": False, "data": "tensor"})
     return out
 
 
@@ -72,7 +73,35 @@ class Idx:
         self.n, self.at, self.tag = n, at, tag
 
 
+def _second_fit(ctx, cfg):
+    """History: fit (empty epoch range) then fit again on the SAME state object with the caller's SAME bases object but
+    new data: the second run must extract its reference-basis rows from the new data (nothing may be carried over)."""
+    from qucumber.nn_states.neural_state import NeuralStateBase
+    from contracts import fitworld as FW
+    vc = VC(ctx)
+    ctx.under_contract("NeuralStateBase.fit")
+
+    def run():
+        w1 = FW.FitWorld(vc, "none", cfg["nets"], True, False, "tensor")
+        vc.assume(w1.epochs < w1.starting_epoch)           # first run: data preparation only, no epoch
+        f1, _r = FW.make_sandbox(vc, w1, NeuralStateBase.fit, NeuralStateBase)
+        w1.user_may_stop = lambda event: None
+        _ret, me, _d = FW.run_fit(vc, w1, f1)
+        bases = w1.bases_obj
+        w2 = FW.FitWorld(vc, "C07", cfg["nets"], True, False, "tensor")
+        w2.user_may_stop = lambda event: None             # stop requests are C12's subject; keep this history small
+        f2, _r = FW.make_sandbox(vc, w2, NeuralStateBase.fit, NeuralStateBase)
+        bases.rows = w2.N
+        FW.run_fit(vc, w2, f2, me=me, bases_obj=bases)
+        w2.check("C07", "second fit/reference-basis rows were extracted again from the new data", w2.z_obj is not None and w2.z_obj is not w1.z_obj)
+    vc.explore(run, "second fit")
+    vc.flush()
+    ctx.holds("exploration/paths > 0", vc.paths > 0)
+
+
 def run_config(ctx, cfg):
+    if cfg["part"] == "second-fit":
+        return _second_fit(ctx, cfg)
     if cfg["part"] == "fit":
         from lemmas import C12
         return C12.fit_part(ctx, cfg, prop="C07")
